@@ -265,6 +265,16 @@ func mgStmt(fset *token.FileSet, st ast.Stmt) []string {
 			cond = oneLine(src(fset, s.Cond))
 		}
 		return append(append([]string{".loopBegin " + strconv.Quote(cond)}, mgStmts(fset, s.Body.List)...), ".loopEnd")
+	case *ast.RangeStmt:
+		hd := "range " + oneLine(src(fset, s.X))
+		if s.Key != nil {
+			hd = oneLine(src(fset, s.Key))
+			if s.Value != nil {
+				hd += ", " + oneLine(src(fset, s.Value))
+			}
+			hd += " := range " + oneLine(src(fset, s.X))
+		}
+		return append(append([]string{".loopBegin " + strconv.Quote(hd)}, mgStmts(fset, s.Body.List)...), ".loopEnd")
 	case *ast.SelectStmt:
 		var out []string
 		for _, cc := range s.Body.List {
@@ -386,6 +396,28 @@ var hdTargets = []mgTarget{
 	{"pkg/handler/handler.go", "Standalone.applyLoginRateLimit", "applyLoginRateLimit"},
 	{"pkg/handler/error.go", "Standalone.respondError", "respondError"},
 	{"pkg/handler/error.go", "Standalone.Retry", "retryURI"},
+	{"pkg/url/redirect.go", "NewStandaloneRedirect", "newStandaloneRedirect"},
+	{"pkg/url/redirect.go", "StandaloneRedirect.Canonical", "standaloneCanonical"},
+	{"pkg/url/redirect.go", "StandaloneRedirect.Clean", "standaloneClean"},
+	{"pkg/url/redirect.go", "StandaloneRedirect.getFallbackRedirect", "standaloneFallback"},
+	{"pkg/url/redirect.go", "NewSSOServerRedirect", "newSSOServerRedirect"},
+	{"pkg/url/redirect.go", "SSOServerRedirect.Canonical", "ssoServerCanonical"},
+	{"pkg/url/redirect.go", "SSOServerRedirect.Clean", "ssoServerClean"},
+	{"pkg/url/redirect.go", "NewSSOProxyRedirect", "newSSOProxyRedirect"},
+	{"pkg/url/redirect.go", "SSOProxyRedirect.Canonical", "ssoProxyCanonical"},
+	{"pkg/url/redirect.go", "SSOProxyRedirect.Clean", "ssoProxyClean"},
+	{"pkg/url/redirect.go", "SSOProxyRedirect.getFallbackRedirect", "ssoProxyFallback"},
+	{"pkg/url/redirect.go", "clean", "cleanRedirect"},
+	{"pkg/url/redirect.go", "redirectQueryParam", "redirectQueryParam"},
+	{"pkg/url/redirect.go", "fallback", "fallbackRedirect"},
+	{"pkg/url/validator.go", "AbsoluteValidator.IsValidRedirect", "absoluteIsValid"},
+	{"pkg/url/validator.go", "RelativeValidator.IsValidRedirect", "relativeIsValid"},
+	{"pkg/url/validator.go", "parsableRequestURI", "parsableRequestURI"},
+	{"pkg/url/validator.go", "isAllowedHost", "isAllowedHost"},
+	{"pkg/url/validator.go", "isValidScheme", "isValidScheme"},
+	{"pkg/url/validator.go", "isRelativeURL", "isRelativeURL"},
+	{"pkg/url/validator.go", "isValidAbsolutePath", "isValidAbsolutePath"},
+	{"pkg/url/validator.go", "isAllowedDomain", "isAllowedDomain"},
 }
 
 func genManager() {
